@@ -607,6 +607,9 @@ class Gen:
             mut = [v for v in ctx["vars"] if v[1] == F and v[2]]
             if self.p.get("assign", True) and mut:
                 opts.append(("set", 2))
+            mutt = [v for v in ctx["vars"] if isinstance(v[1], tuple) and v[1][0] == "t" and v[2]]
+            if self.p.get("tuple_assign", False) and mutt:
+                opts.append(("sett", 3))
             recs = [v for v in ctx["vars"] if isinstance(v[1], tuple) and v[1][0] == "r"]
             if self.p.get("records", self.p.get("tuples", True)):
                 opts.append(("letrec", 2))
@@ -670,12 +673,19 @@ class Gen:
                 if r.chance(1, 2):
                     x = self.fresh("t")
                     stmts.append(("let", x, self.simple_t(tt, d, ctx)))
-                    ctx["vars"].append((x, tt, False))
+                    ctx["vars"].append((x, tt, bool(self.p.get("tuple_assign", False)) and not ctx.get("in_lambda")))
                 else:
                     xs = [self.fresh() for _ in range(m)]
                     stmts.append(("lett", xs, self.simple_t(tt, d, ctx)))
                     ctx["vars"] += [(x, F, False) for x in xs]
             elif k == "letlam":
+                if self.p.get("tuple_assign", False) and not ctx.get("in_lambda") and r.chance(1, 2) and \
+                        not [v for v in ctx["vars"] if isinstance(v[1], tuple) and v[1][0] == "t" and v[2]]:
+                    # make sure there is a whole tuple variable the closure can share with its creator
+                    tt0 = T(*([F] * (2 + r.below(2))))
+                    x0 = self.fresh("t")
+                    stmts.append(("let", x0, self.simple_t(tt0, d, ctx)))
+                    ctx["vars"].append((x0, tt0, True))
                 m = 1 + r.below(2)
                 ps = [self.fresh("p") for _ in range(m)]
                 # lambdas of this fragment are stateless; they capture (and may assign) enclosing variables
@@ -697,7 +707,18 @@ class Gen:
                     words = set(re.findall(r"[A-Za-z_][A-Za-z0-9_]*", src(body)))
                     shared = [v for v in ctx["vars"] if v[1] == F and v[2] and v[0] in words]
                     shared = shared or [v for v in ctx["vars"] if v[1] == F and v[2]]
-                    if shared:
+                    tshared = [v for v in ctx["vars"] if isinstance(v[1], tuple) and v[1][0] == "t" and v[2]] if self.p.get("tuple_assign", False) else []
+                    if tshared and r.chance(2, 3):
+                        v = r.pick(tshared)
+                        stmts[-1] = ("let", fname, Node("lam", ps, self.add_to_tail(body, Node("proj", Node("var", v[0]), r.below(len(v[1]) - 1)))))
+                        stmts.append(("set", v[0], Node("tup", [Node("bin", "add", self.simple(d - 1, ctx), Node("lit", r.pick(["1.5", "100.0", "0.25"])))
+                                                                for _ in v[1][1:]])))
+                        y = self.fresh()
+                        stmts.append(("let", y, Node("app", Node("var", fname), [self.simple(d, ctx) for _ in ps])))
+                        ctx["vars"].append((y, F, True))
+                        must_use.append(y)
+                        self.bump("s_write_after_capture_tuple")
+                    elif shared:
                         v = r.pick(shared)
                         # the closure's result depends on the shared variable
                         stmts[-1] = ("let", fname, Node("lam", ps, self.add_to_tail(body, Node("var", v[0]))))
@@ -707,6 +728,10 @@ class Gen:
                         ctx["vars"].append((y, F, True))
                         must_use.append(y)
                         self.bump("s_write_after_capture")
+            elif k == "sett":
+                # a tuple variable is assigned as a whole; when a closure reads it, the closure shares the variable
+                v = r.pick(mutt)
+                stmts.append(("set", v[0], self.simple_t(v[1], d, ctx)))
             else:
                 v = r.pick(mut)
                 stmts.append(("set", v[0], self.simple(d, ctx)))
@@ -887,6 +912,8 @@ PROFILES = {
     # lambdas inside lambdas (a closure created by a closure captures variables of every enclosing level); `_assign`: and assigns them
     "nested": dict(avoid_f3=True, lam_depth=3, depth=4),
     "nested_assign": dict(avoid_f3=True, lam_depth=3, depth=4, closure_assign=True),
+    "tupassign": dict(avoid_f3=True, tuple_assign=True),
+    "tupassign_nr": dict(avoid_f3=True, tuple_assign=True, rounding=False),
     "g6": dict(avoid_f3=True, lam_depth=3, depth=4, closure_assign=True, avoid_g6=False),
     "aggr": dict(gen="aggr"),
     "aggr_nofn": dict(gen="aggr", fn_fields=False),
